@@ -150,23 +150,29 @@ def guardCTL (T : ClassTable) (Mobj : Logic) (f : Fm) (kripke : Bool) : Except E
       (if kripke then .ok () else .error .typeError)
     else .error .typeError
 
-/-- `LTL.modelcheck`: the object must be an instance of `CTLS.A` (so `CTL.A`, `LTL.A`, `CTLS.A` objects qualify); then
-    the structure is tested; then, inside `try … except TypeError: raise TypeError`, `LNot(operand)` is built *in the
-    module of the object*, rewritten, and `_get_closure` raises `TypeError` on anything that is not in {not, or, X, U}
-    over atoms (`LTL.toR`, as in `LTL.modelcheck` of PMC/Model/LTL.lean).
-    (The rewriting also builds its result in `Mobj`; for LTL- and CTLS-module objects that never fails, and for CTL-module
-    objects `LNot` has already failed.) -/
+/-- `LTL.modelcheck`: an object that is a `CTLS.Formula` but not an `LTL.Formula` (every CTL- and CTLS-module object) is
+    first cast to LTL (any exception becomes `TypeError`); from then on it is an LTL-module object.  The (possibly
+    cast) object must be an instance of `CTLS.A` (`LTL.A` qualifies; a PL-module object is neither cast nor a `CTLS.A`);
+    then the structure is tested; then, inside `try … except TypeError: raise TypeError`, `LNot(operand)` is built *in
+    the module of the (cast) object*, rewritten, and `_get_closure` raises `TypeError` on anything that is not in
+    {not, or, X, U} over atoms (`LTL.toR`, as in `LTL.modelcheck` of PMC/Model/LTL.lean).
+    (The rewriting also builds its result in that module; for LTL-module objects that never fails.) -/
 def guardLTL (T : ClassTable) (Mobj : Logic) (f : Fm) (kripke : Bool) : Except Err Unit :=
-  if T.isSub (Mobj, className f) (.CTLS, "A") then
-    if kripke then
-      match f with
-      | .A g =>
-        match construct T Mobj g.lnot with
-        | .error e => .error e
-        | .ok () => if (LTL.toR g.lnot.restrict).isSome then .ok () else .error .typeError
-      | _ => .error .typeError
+  let cast := T.isSub (Mobj, className f) (.CTLS, "Formula") && !T.isSub (Mobj, className f) (.LTL, "Formula")
+  match (if cast then castTo T Mobj .LTL f else Except.ok ()) with
+  | .error _ => .error .typeError
+  | .ok () =>
+    let M : Logic := if cast then .LTL else Mobj
+    if T.isSub (M, className f) (.CTLS, "A") then
+      if kripke then
+        match f with
+        | .A g =>
+          match construct T M g.lnot with
+          | .error e => .error e
+          | .ok () => if (LTL.toR g.lnot.restrict).isSome then .ok () else .error .typeError
+        | _ => .error .typeError
+      else .error .typeError
     else .error .typeError
-  else .error .typeError
 
 /-- what `_remove_state_subformulas` returns, up to the names of the new atoms: every maximal quantified subformula
     replaced by an atom -/
@@ -184,13 +190,19 @@ where
     | [] => []
     | f :: fs => stripQ f :: stripQList fs
 
-/-- `CTLS.modelcheck`: the structure is tested first; `_remove_state_subformulas` raises `TypeError` on an object that
-    is not a `CTLS.Formula` (every PL-module object: `PL.Formula` is a base class of `CTLS.Formula`, not a subclass);
-    its result — an object of the same module — goes to `CTL.modelcheck`. -/
+/-- `CTLS.modelcheck`: the structure is tested first; an object that is not a `CTLS.Formula` (every PL-module object:
+    `PL.Formula` is a base class of `CTLS.Formula`, not a subclass) is cast to CTL* (any exception becomes `TypeError`);
+    from then on it is a CTLS-module object.  `_remove_state_subformulas` raises `TypeError` on an object that is not a
+    `CTLS.Formula`; its result — an object of the same module — goes to `CTL.modelcheck`. -/
 def guardCTLS (T : ClassTable) (Mobj : Logic) (f : Fm) (kripke : Bool) : Except Err Unit :=
   if kripke then
-    if T.isSub (Mobj, className f) (.CTLS, "Formula") then guardCTL T Mobj (stripQ f) true
-    else .error .typeError
+    let cast := !T.isSub (Mobj, className f) (.CTLS, "Formula")
+    match (if cast then castTo T Mobj .CTLS f else Except.ok ()) with
+    | .error _ => .error .typeError
+    | .ok () =>
+      let M : Logic := if cast then .CTLS else Mobj
+      if T.isSub (M, className f) (.CTLS, "Formula") then guardCTL T M (stripQ f) true
+      else .error .typeError
   else .error .typeError
 
 /-! ### the lattice as it is supposed to be -/
